@@ -4,6 +4,7 @@ The budget is CPU time of this process (ITIMER_PROF): a machine busy with other 
 arbitrarily, and a run that merely waits for the processor has not "failed to terminate".  A generous wall-clock
 backstop (ITIMER_REAL) still ends executions that block without using the processor.
 """
+import gc
 import signal
 from contextlib import contextmanager
 
@@ -21,11 +22,17 @@ def deadline(seconds):
     old_alrm = signal.signal(signal.SIGALRM, _handler)
     old_prof = signal.signal(signal.SIGPROF, _handler)
     wall = seconds * 20 + 60
+    # no cyclic garbage collection inside the window: in a process that holds millions of recorded objects one full
+    # collection takes seconds of CPU time, which is not the execution's
+    gc_was = gc.isenabled()
+    gc.disable()
     prev_prof = signal.setitimer(signal.ITIMER_PROF, seconds)[0]
     prev_real = signal.setitimer(signal.ITIMER_REAL, wall)[0]
     try:
         yield
     finally:
+        if gc_was:
+            gc.enable()
         # an enclosing deadline keeps running with what this one left of it
         used_prof = seconds - signal.setitimer(signal.ITIMER_PROF, 0)[0]
         used_real = wall - signal.setitimer(signal.ITIMER_REAL, 0)[0]
@@ -35,3 +42,25 @@ def deadline(seconds):
             signal.setitimer(signal.ITIMER_PROF, max(prev_prof - used_prof, 0.001))
         if prev_real > 0:
             signal.setitimer(signal.ITIMER_REAL, max(prev_real - used_real, 0.001))
+
+
+def patient(fn, budget, long_budget=120.0):
+    """fn() under `budget` seconds of CPU time; if that expires, ONCE more with the cyclic garbage collector switched off and
+    a long budget.  In a process that holds millions of recorded objects a single full collection can take seconds; an
+    execution interrupted by one has not failed to terminate.  Raises Expired only if the second attempt expires too.
+    fn must start from scratch on every call."""
+    import gc
+    try:
+        with deadline(budget):
+            return fn()
+    except Expired:
+        pass
+    was = gc.isenabled()
+    gc.collect()
+    gc.disable()
+    try:
+        with deadline(long_budget):
+            return fn()
+    finally:
+        if was:
+            gc.enable()
